@@ -380,6 +380,7 @@ struct ClosureHdr {
     types: Vec<String>,
     post: String,
     label: String,
+    prelude: String,
 }
 
 fn normalise_body(
@@ -428,11 +429,13 @@ fn normalise_body(
         let need_wrap = (!names.is_empty() || hdr.is_some()) && !body_is_block;
         if need_wrap {
             let (s, e) = br(c.body.span());
-            edits.ins(s, format!("{{{} ", lets(&names)), "N1");
+            let pre = hdr.map(|h| h.prelude.clone()).unwrap_or_default();
+            edits.ins(s, format!("{{{} {}", lets(&names), if pre.is_empty() { String::new() } else { format!("\n{}\n", pre.trim_end()) }), "N1");
             edits.ins(e, " }", "N1");
-        } else if !names.is_empty() {
-            if let syn::Expr::Block(b) = &*c.body {
-                edits.ins(br(b.block.brace_token.span.open()).1, lets(&names), "N1");
+        } else if let syn::Expr::Block(b) = &*c.body {
+            let pre = hdr.map(|h| h.prelude.clone()).unwrap_or_default();
+            if !names.is_empty() || !pre.is_empty() {
+                edits.ins(br(b.block.brace_token.span.open()).1, format!("{} {}", lets(&names), if pre.is_empty() { String::new() } else { format!("\n{}\n", pre.trim_end()) }), "N1");
             }
         }
         if !names.is_empty() {
@@ -705,7 +708,17 @@ fn process_fn(
                 if n >= nodes.closures.len() {
                     return lost(format!("lost anchor {}: function has {} closures", sp.at, nodes.closures.len()));
                 }
-                closure_hdrs.insert(n, ClosureHdr { types: sp.types.clone().unwrap_or_default(), post: sp.text.clone(), label });
+                let e = closure_hdrs.entry(n).or_insert(ClosureHdr { types: vec![], post: String::new(), label: label.clone(), prelude: String::new() });
+                e.types = sp.types.clone().unwrap_or_default();
+                e.post = sp.text.clone();
+            }
+            [l, "prelude"] if l.starts_with("closure[") => {
+                let n = parse_idx(l, "closure").ok_or_else(|| Lost(format!("bad anchor {}", sp.at)))?;
+                if n >= nodes.closures.len() {
+                    return lost(format!("lost anchor {}: function has {} closures", sp.at, nodes.closures.len()));
+                }
+                let e = closure_hdrs.entry(n).or_insert(ClosureHdr { types: vec![], post: String::new(), label: label.clone(), prelude: String::new() });
+                e.prelude = sp.text.clone();
             }
             [l, "body", r2 @ ..] if l.starts_with("closure[") => {
                 let n = parse_idx(l, "closure").ok_or_else(|| Lost(format!("bad anchor {}", sp.at)))?;
